@@ -586,6 +586,11 @@ func (a *Analyzer) Feed(r *ev.Rec) {
 		if r.Kind == "no-election" {
 			a.find("C20", "foreign-peer-suppresses-elections", "", r.Q, "cluster %d: the leader %d is gone for 40 heartbeat timeouts, but the followers elect nobody while a node of another cluster with the leader's node id keeps dialling them (every attempt is refused at the identity handshake)", r.Cid, r.Nid)
 		}
+	case "after-failed-transfer":
+		a.stat("after-failed-transfer:" + r.Kind)
+		if r.Kind == "unresponsive" {
+			a.find("C16", "node-unresponsive-after-failed-transfer", "", r.Q, "%s answered a leadership transfer with %q and 15 s later does not even report its status: the failed transfer left the node (and with it the cluster it still heartbeats) without a working leader", n.key, r.Err)
+		}
 	case "bounded-election":
 		a.stat("bounded-election:" + r.Kind)
 		if r.Kind == "no-election" {
